@@ -28,7 +28,9 @@ EXPLANATION = "bounded histories of constructions / targeted clears / global cle
 
 
 def configs(tier):
-    return [{"depth": 3 if tier == "quick" else 4}, {"depth": 0, "native_gc": True}]
+    # the symbolic start-up subset ranges over A, its subclass and (quick) the factory class; with one more step the
+    # thorough tier reaches the factory class by the history itself
+    return [{"depth": 3, "pre": [0, 2, 4]} if tier == "quick" else {"depth": 4, "pre": [0, 2]}, {"depth": 0, "native_gc": True, "pre": []}]
 
 
 def required_markers(tier):
@@ -175,7 +177,7 @@ def scenario(B, p):
     ops = []
     # start-up: an arbitrary subset of the classes is already instantiated (by real constructor calls)
     # (A, its subclass and the factory class; the other two are reached by the history itself)
-    for ci in (0, 2, 4):
+    for ci in p["pre"]:
         if B.choice(f"pre{ci}", 2) == 1:
             ops.append(B.mktuple([0, ci, 0, B.int(f"pre{ci}.arg", 0, 3), None]))
     for s in range(p["depth"]):
